@@ -235,9 +235,13 @@ def build(run):
         i, j = Index(), Index()
         x = ufl.SpatialCoordinate(m)
         scal = [f, g, c1, c2, v, C.IntValue(2), C.FloatValue(0.5), x[0], x[1], u[0], u[1], w[0], ufl.CellVolume(m), ufl.CellVolume(m2), ufl.Circumradius(m),
-                u[i] * w[i], u[j] * w[j], A[i, i], A[0, 1], ufl.FacetNormal(m)[0]]
+                u[i] * w[i], u[j] * w[j], A[i, i], A[0, 1], ufl.FacetNormal(m)[0],
+                # literals that a comparator could conflate: same real part, repr order != numeric order, sign, int vs float
+                C.ComplexValue(1 + 2j), C.ComplexValue(1 - 2j), C.ComplexValue(0.5 + 1j), C.IntValue(9), C.IntValue(10), C.IntValue(-2),
+                C.FloatValue(-0.5), C.FloatValue(2.5)]
+        zf = [C.Product(C.ComplexValue(1 + 2j), f), C.Product(C.ComplexValue(1 - 2j), f), C.Product(C.IntValue(9), g), C.Product(C.IntValue(10), g)]
         open_idx = [A[i, 0], A[j, 1], A[i, 1], A[0, i], A[1, j], u[i], w[j]]       # operands with free indices: differ in a fixed index after / before a free one
-        lvl1 = []
+        lvl1 = list(zf)
         for a, b in itertools.product(scal[:9], repeat=2):
             lvl1 += [C.Division(a, b)]
         for a in scal[:12]:
